@@ -321,44 +321,92 @@ func c12(r *core.Run) {
 					swept = true
 				}
 			}
-			// the relations every path to this delete has established (single-edge cuts): the semantic key of the site
-			var keyParts []string
-			for _, b := range fn.Blocks {
-				ifi, ok := b.Instrs[len(b.Instrs)-1].(*ssa.If)
-				if !ok {
+			// A delete reached through several decisions (if A || B { delete }) is judged once per way in: each
+			// incoming decision edge of the deleting block is a class of its own, so that merging or splitting the
+			// conditions does not change what is reported.
+			db := e.Instr.Block()
+			var classes []map[core.Edge]bool // per class: the OTHER incoming edges (to be avoided)
+			var inEdges []core.Edge
+			for _, pb := range db.Preds {
+				if _, isIf := pb.Instrs[len(pb.Instrs)-1].(*ssa.If); !isIf {
 					continue
 				}
-				ca := p.NormCond(ifi)
-				for succ := 0; succ < 2; succ++ {
-					if core.PathExists(fn, map[core.Edge]bool{{From: b, Succ: succ}: true}, e.Instr, nil) {
-						continue
-					}
-					truth := !ca.Neg
-					if succ == 1 {
-						truth = ca.Neg
-					}
-					if rel := timeRel(p, ca, truth, isEnd, isNow); rel != "" {
-						keyParts = append(keyParts, "End"+rel+"now")
-					}
-					if rel := timeRel(p, ca, truth, isEnd, isStart); rel != "" {
-						keyParts = append(keyParts, "End"+rel+"Start")
-					}
-					if extBool(p, "types.Coins).Empty", true, isBal)(ca, truth) {
-						keyParts = append(keyParts, "balance-empty")
+				for i, sc := range pb.Succs {
+					if sc == db {
+						inEdges = append(inEdges, core.Edge{From: pb, Succ: i})
 					}
 				}
 			}
-			sort.Strings(keyParts)
-			construct := "gauge:removed-undrained:" + strings.Join(keyParts, "&")
-			switch {
-			case swept:
-				r.Ok("C12/R3", "gauge:delete-after-sweep:"+strings.Join(keyParts, "&"), p.InstrPos(e.Instr), "delete follows a transfer of the whole remaining balance")
-			case len(p.FindUnguarded(fn, []*core.Effect{e}, empty, true)) == 0:
-				r.Ok("C12/R3", "gauge:delete-behind-empty-balance", p.InstrPos(e.Instr), "delete behind Empty(balance)=true")
-			case len(p.FindUnguarded(fn, []*core.Effect{e}, degenerate, true)) == 0:
-				r.Ok("C12/R3", "gauge:delete-degenerate-interval", p.InstrPos(e.Instr), "exception (reviewed): delete of a gauge with End <= Start; constructors add a positive duration to the block time (checked below), so no transaction creates one")
-			default:
-				r.Violation("C12/R3", construct, p.InstrPos(e.Instr), "a gauge record is deleted without checking that its account is empty and without sweeping it: the remainder accrued since the last reward block is stranded and never released; reached under "+strings.Join(keyParts, " & "))
+			if len(inEdges) >= 2 && len(inEdges) == len(db.Preds) {
+				for i := range inEdges {
+					av := map[core.Edge]bool{}
+					for j, ed := range inEdges {
+						if j != i {
+							av[ed] = true
+						}
+					}
+					classes = append(classes, av)
+				}
+			} else {
+				classes = []map[core.Edge]bool{{}}
+			}
+			for _, avoid := range classes {
+				with := func(m map[core.Edge]bool) map[core.Edge]bool {
+					out := map[core.Edge]bool{}
+					for k := range m {
+						out[k] = true
+					}
+					for k := range avoid {
+						out[k] = true
+					}
+					return out
+				}
+				// the relations every path of this class has established (single-edge cuts): the semantic key
+				var keyParts []string
+				for _, b := range fn.Blocks {
+					ifi, ok := b.Instrs[len(b.Instrs)-1].(*ssa.If)
+					if !ok {
+						continue
+					}
+					ca := p.NormCond(ifi)
+					for succ := 0; succ < 2; succ++ {
+						if avoid[core.Edge{From: b, Succ: succ}] {
+							continue
+						}
+						if core.PathExists(fn, with(map[core.Edge]bool{{From: b, Succ: succ}: true}), e.Instr, nil) {
+							continue
+						}
+						truth := !ca.Neg
+						if succ == 1 {
+							truth = ca.Neg
+						}
+						if rel := timeRel(p, ca, truth, isEnd, isNow); rel != "" {
+							keyParts = append(keyParts, "End"+rel+"now")
+						}
+						if rel := timeRel(p, ca, truth, isEnd, isStart); rel != "" {
+							keyParts = append(keyParts, "End"+rel+"Start")
+						}
+						if extBool(p, "types.Coins).Empty", true, isBal)(ca, truth) {
+							keyParts = append(keyParts, "balance-empty")
+						}
+					}
+				}
+				sort.Strings(keyParts)
+				keyParts = uniq(keyParts)
+				construct := "gauge:removed-undrained:" + strings.Join(keyParts, "&")
+				behind := func(g core.GuardMatch) bool {
+					return !core.PathExists(fn, with(p.PassEdges(fn, g)), e.Instr, nil)
+				}
+				switch {
+				case swept:
+					r.Ok("C12/R3", "gauge:delete-after-sweep:"+strings.Join(keyParts, "&"), p.InstrPos(e.Instr), "delete follows a transfer of the whole remaining balance")
+				case behind(empty):
+					r.Ok("C12/R3", "gauge:delete-behind-empty-balance", p.InstrPos(e.Instr), "delete behind Empty(balance)=true")
+				case behind(degenerate):
+					r.Ok("C12/R3", "gauge:delete-degenerate-interval", p.InstrPos(e.Instr), "exception (reviewed): delete of a gauge with End <= Start; constructors add a positive duration to the block time (checked below), so no transaction creates one")
+				default:
+					r.Violation("C12/R3", construct, p.InstrPos(e.Instr), "a gauge record is deleted without checking that its account is empty and without sweeping it: the remainder accrued since the last reward block is stranded and never released; reached under "+strings.Join(keyParts, " & "))
+				}
 			}
 		}
 	}
@@ -381,7 +429,7 @@ func c12(r *core.Run) {
 						}
 					}
 				}
-				if !isCtor || fn != h.Fn {
+				if !isCtor {
 					return
 				}
 				nCall++
@@ -390,6 +438,9 @@ func c12(r *core.Run) {
 						continue
 					}
 					ep := p.ProvAt(a, "", c)
+					if fn != h.Fn {
+						ep = p.ResolveToEntry(ep, h.Fn) // the constructor is called from a helper of the handler
+					}
 					okE := ep.HasCtx("BlockTime") && (ep.HasExt("time.Time).Add") || ep.HasExt("time.Time).AddDate"))
 					r.Check(okE, "C12/R3", h.Key()+":gauge-end=blocktime+duration", p.InstrPos(c), "gauge End ⊵ Ctx.BlockTime advanced by a duration", "a gauge is created whose End is not the block time plus a duration: "+ep.String())
 				}
